@@ -590,7 +590,7 @@ pub fn sched_case(ex: &mut Exec, rng: &mut Rng, out: &mut Out, steps: u64) {
                 }
             }
         }
-        match rng.below(18) {
+        match rng.below(19) {
             0..=6 => {
                 if !net.pending.is_empty() {
                     let k = rng.below(net.pending.len() as u64) as usize;
@@ -664,6 +664,15 @@ pub fn sched_case(ex: &mut Exec, rng: &mut Rng, out: &mut Out, steps: u64) {
                 ex.apply(&format!("inject {} 2 {} 0 {} 0 0", x.name(), isn, rng.below(65536)), out);
                 for j in ex.last_emitted.clone() {
                     net.pending.push((x.peer(), j));
+                }
+            }
+            17 if old_syn && rng.chance(1, 4) => {
+                // an old duplicate RST (no ACK) of an earlier incarnation
+                let x = if rng.chance(1, 2) { SideId::A } else { SideId::B };
+                if let Some(s) = ex.snap(x) {
+                    out.count(&format!("old_rst.in.{}", state_str(s.state)));
+                    let seq = if rng.chance(1, 2) { s.rcv.1 } else { pick_isn(rng) };
+                    ex.apply(&format!("inject {} 4 {} 0 0 0 0", x.name(), seq), out);
                 }
             }
             16 if aborts && rng.chance(1, 10) => {
